@@ -66,6 +66,8 @@ func checkC06(c *Ctx) {
 	checkWriteUnconditional(c, "C06.R4.spec-rewritten", gen)
 	// two operations merged into one handler slot run under one of the two security requirements
 	checkRouteClash(c, "C06.R5.route-clash", gen)
+	// every required scheme gets its authenticator: the loops that collect them leave no element out
+	checkLoopTotality(c, "C06.R3.loop-totality", gen, "generator", 20, generatorLoopExits)
 	checkSchemesTotal(c, gen)
 }
 
